@@ -219,6 +219,7 @@ LEVEL_TEXT = ('Proof for decoder kernels, each against the formula of the publis
               'legal header size (<= 64 KiB) accepted; convert_pbf_lon/lat equal 1e-9*(offset+granularity*c) in 1e-7 units for all block parameters in a stated range and are the identity at '
               'default parameters; the version and changeset range checks of decode_info and decode_dense_nodes (extracted as statement blocks) accept exactly -1..2^31-1 resp. -1..2^32-1; '
               'the o5m reference table implements the numbering rule of the format (entry i = i-th most recent entered string, strings over 250 characters not entered, ring of 15000) '
-              'as a data-structure contract with a ghost counter of entered strings.')
+              'as a data-structure contract with a ghost counter of entered strings; the timestamp of a dense node is the running sum of the raw deltas scaled once by date_granularity/1000 (statement block), '
+              'the same formula decode_info uses for plain objects.')
 LEVEL_NOTE = ('Trusted: CBMC, extraction rules, protozero readers, copy_n/resize stubs. The statement covers whole files; only these kernels are decided. Not decided: XML/OPL dispatch, '
               'protobuf field loop, reader agreement, decompression, o5m delta chains.')
